@@ -474,6 +474,17 @@ def run_check(mod, prop_id, tier, seed, replay=None):
                 mod.run(ctx)
         except Exception:  # noqa: BLE001
             harness_error = traceback.format_exc()
+            own_model_broken = bool(failed_files) or bool(site_problems)
+            if own_model_broken and hasattr(mod, "run_without_model") and not replay and not ctx.violations:
+                # the driver runs, but this property's own entry points are missing from it (its model no longer builds
+                # and was left out): the exception is the missing entry; fall back to the model-free predicates
+                ctx.tie_failures.append({"kind": "build", "what": "this property's model entries are missing from the driver (model does not build against the current source)",
+                                         "detail": harness_error.strip().splitlines()[-1][:300]})
+                harness_error = None
+                try:
+                    mod.run_without_model(ctx)
+                except Exception:  # noqa: BLE001
+                    harness_error = traceback.format_exc()
     else:
         ctx.tie_failures.append({"kind": "build", "what": "extracted model does not build against the current source",
                                  "detail": failed_files or build["steps"]})
@@ -486,7 +497,7 @@ def run_check(mod, prop_id, tier, seed, replay=None):
     # With every theorem of the property holding for the model, an input on which the implementation differs from a
     # model that IS the documented formula is a concrete input on which the property fails (modules opt in: TIE_IS_SPEC).
     if proof_ok and ctx.tie_failures and not ctx.violations and harness_error is None and getattr(mod, "TIE_IS_SPEC", False):
-        for t in ctx.tie_failures[:10]:
+        for t in [t for t in ctx.tie_failures if t.get("kind") == "correspondence"][:10]:
             ctx.violations.append({"kind": "property", "what": "implementation differs from the proved model (= documented formula) at this input: " + t["what"],
                                    "case": t["case"], "expected": t["model"], "got": t["implementation"]})
     broken = (not proof_ok) or bool(ctx.tie_failures) or harness_error is not None
@@ -505,7 +516,11 @@ def run_check(mod, prop_id, tier, seed, replay=None):
                 else:
                     mod.run_without_model(c2)
             except Exception:  # noqa: BLE001
-                pass
+                if hasattr(mod, "run_without_model") and not c2.violations:
+                    try:
+                        mod.run_without_model(c2)
+                    except Exception:  # noqa: BLE001
+                        pass
             ctx.evaluations += c2.evaluations
             ctx.distinct |= c2.distinct
             if c2.driver:
